@@ -207,6 +207,21 @@ def gen_env(m, sys, backend, threshold, qmask):
   return GenEnv(sys, backend=backend, n_frames=1)
 
 
+def scale_obs_wrapper(env):
+  """A user wrapper whose reset and step both do something (doubles the observation)."""
+  from brax.envs.base import Wrapper
+
+  class ScaleObs(Wrapper):
+    def reset(self, rng):
+      s = self.env.reset(rng)
+      return s.replace(obs=2.0 * s.obs)
+
+    def step(self, state, action):
+      s = self.env.step(state, action)
+      return s.replace(obs=2.0 * s.obs)
+  return ScaleObs(env)
+
+
 @st.composite
 def genenv_cases(draw):
   p = modelgen.profile(limits='wide', max_bodies=3, gravity='any', actuators='bounded')
@@ -217,7 +232,7 @@ def genenv_cases(draw):
           'threshold': draw(st.sampled_from([0.05, 0.5, 5.0, 1e9])), 'L': draw(st.sampled_from([3, 7, 1000])), 'r': draw(st.sampled_from([1, 2])),
           'key': draw(st.lists(st.integers(0, 2**32 - 1), min_size=2, max_size=2)), 'key2': draw(st.lists(st.integers(0, 2**32 - 1), min_size=2, max_size=2)),
           'actions': draw(st.lists(st.lists(modelgen.fl(-1.0, 1.0), min_size=b * nu, max_size=b * nu), min_size=6, max_size=12)),
-          'member': draw(st.integers(0, b - 1)), 'dr': draw(st.booleans()),
+          'member': draw(st.integers(0, b - 1)), 'dr': draw(st.booleans()), 'user_wrapper': draw(st.booleans()),
           'dr_scale': draw(st.lists(modelgen.fl(0.5, 2.0), min_size=3 * b, max_size=3 * b))}
 
 
@@ -243,6 +258,9 @@ def check_genenv(c, ctx=None):
   s_ = phys.check_structure(sys, spec)
   b, nu, i = c['B'], s_['nu'], c['member']
   env0 = gen_env(m, sys, c['backend'], c['threshold'], qmask_of(spec))
+  obs_scale = 1.0
+  if c.get('user_wrapper'):
+    env0, obs_scale = scale_obs_wrapper(env0), 2.0
   acts = [jp.array(np.array(a, float).reshape(b, nu)) for a in c['actions']]
   keys = jax.random.split(jp.array(np.array(c['key'], np.uint32)), b)
   pm = m[c['backend']]
@@ -268,6 +286,14 @@ def check_genenv(c, ctx=None):
       ref0 = jax.jit(lambda q_, qd_: pm.init(sys_j, q_, qd_))(ps0.q, ps0.qd)
       ref1 = jax.jit(lambda s__, a_: pm.step(sys_j, s__, a_))(ref0, acts[0][j])
       got1 = jax.tree_util.tree_map(lambda x: x[j], st1.pipeline_state)
+      # observations go through every wrapper between the randomisation wrapper and the base env, at reset too
+      for name, st_ in (('reset', st0),) + ((('step', st1),) if float(st1.done[j]) == 0.0 else ()):
+        ps_ = jax.tree_util.tree_map(lambda x: x[j], st_.pipeline_state)
+        exp_obs = obs_scale * np.concatenate([np.asarray(ps_.q), np.asarray(ps_.qd)])
+        if not np.allclose(np.asarray(st_.obs[j]), exp_obs, rtol=1e-12, atol=1e-12):
+          raise Violation('domain_randomization', f'{c["backend"]}: member {j} {name} observation {np.asarray(st_.obs[j])[:4]} is not the wrapped env\'s observation '
+                          f'{exp_obs[:4]} of its own state (user wrapper between the randomisation wrapper and the base env: {bool(c.get("user_wrapper"))})',
+                          labels={'check': 'domain_randomization', 'backend': c['backend'], 'phase': name, 'field': 'obs'})
       phases = [('reset', ps0, ref0)]
       if float(st1.done[j]) == 0.0:  # an ended episode is replaced by the reset state by AutoResetWrapper
         phases.append(('step', got1, ref1))
@@ -283,7 +309,7 @@ def check_genenv(c, ctx=None):
             raise Violation('domain_randomization', f'{c["backend"]}: member {j} (mass x{sc[0, j]:.2f}, friction x{sc[1, j]:.2f}, gear x{sc[2, j]:.2f}): '
                             f'{name} state leaf {jax.tree_util.keystr(path)} differs from pipeline.{"init" if name == "reset" else "step"} on that member\'s own system by {e:.3e}',
                             labels={'check': 'domain_randomization', 'backend': c['backend'], 'phase': name})
-    labels = ['genenv', 'domain_randomization', 'backend:' + c['backend']]
+    labels = ['genenv', 'domain_randomization', 'backend:' + c['backend']] + (['user_wrapper'] if c.get('user_wrapper') else [])
     mixed = True
   else:
     env = training.wrap(env0, episode_length=c['L'], action_repeat=c['r'])
